@@ -1200,7 +1200,7 @@ func (m *c42Machine) bumpOK(old c42Entry, x *c42Tx) bool {
 
 func (m *c42Machine) actAdd() {
 	x := m.genTx()
-	viaAdd := rapid.IntRange(0, 79).Draw(m.rt, "viaFullAdd") == 0
+	viaAdd := rapid.IntRange(0, 79).Draw(m.rt, "viaFullAdd") == 41 // rapid favours the range ends: a mid value keeps this rare
 	m.doAdd(x, viaAdd)
 }
 
